@@ -9,8 +9,11 @@ of a database connection made at import time that hangs once).  The property
 requires the hung worker to be aborted and replaced within the timeout plus a
 small bounded delay; the replacement imports the application fine and serves.
 """
+import os as _os
+_TREE_UNDER_TEST = _os.environ.get("GVERIF_REPO") or _os.getcwd()   # the checkout under test (was the auditing agent's scratch worktree)
+
 import sys
-sys.path.insert(0, "/tmp/wa_C11")
+sys.path.insert(0, _TREE_UNDER_TEST)
 
 import os
 import re
@@ -20,7 +23,7 @@ import subprocess
 import tempfile
 import time
 
-ROOT = "/tmp/wa_C11"
+ROOT = _TREE_UNDER_TEST
 TIMEOUT = 2          # gunicorn --timeout
 GRACE = 8            # "small bounded delay" allowed on top of the timeout
 
